@@ -35,6 +35,12 @@ type e2eAttempt struct {
 	deadlineCtx bool
 	// foreignCtx: the caller's context is of a type of its own (not one of the context package's)
 	foreignCtx bool
+	// afterCancelSleep: the handler call that cancels the context keeps working for this long before it returns its
+	// verdict (a consumer that finishes storing the transaction it was handed while the caller is shutting down)
+	afterCancelSleep time.Duration
+	// cancelOnAnnounce: the caller cancels at the moment the master receives the checksum announcement of this attempt;
+	// the master answers it a little later (the cancellation falls inside the connection set-up)
+	cancelOnAnnounce bool
 }
 
 type e2eResult struct {
@@ -228,11 +234,31 @@ func (env *e2eEnv) run(n int, a e2eAttempt, baseline int) (res e2eResult) {
 		}
 		if a.cancelInHandler == k {
 			cancel()
+			if a.afterCancelSleep > 0 {
+				time.Sleep(a.afterCancelSleep)
+			}
 		}
 		if !ok {
 			return errors.New("handler refuses")
 		}
 		return nil
+	}
+	if a.cancelOnAnnounce {
+		env.m.mu.Lock()
+		prevReply := env.m.queryReply
+		env.m.queryReply = func(idx int, sql string) string {
+			if idx == n {
+				cancel()
+				time.Sleep(250 * time.Millisecond)
+			}
+			return ""
+		}
+		env.m.mu.Unlock()
+		defer func() {
+			env.m.mu.Lock()
+			env.m.queryReply = prevReply
+			env.m.mu.Unlock()
+		}()
 	}
 	if a.cancelWhenIdle {
 		go func() {
@@ -468,7 +494,7 @@ func e2eResume(c *Ctx) {
 func e2eAttempts(c *Ctx) {
 	r := c.Rng
 	base := libraryGoroutines()
-	faults := []string{"close", "reset", "short", "outofseq", "err", "eof", "cancel-idle", "cancel-handler", "handler-err", "cancel-handler-err"}
+	faults := []string{"close", "reset", "short", "outofseq", "err", "eof", "cancel-idle", "cancel-handler", "handler-err", "cancel-handler-err", "cancel-handler-slow-accept"}
 	for k := 0; k < c.N(6, 120); k++ {
 		cfg := baseCfg(r, r.Intn(len(baseCfgs)))
 		// (a quarter of the histories with offsets in the upper half of the 32-bit range: the stored position of a failed
@@ -519,6 +545,10 @@ func e2eAttempts(c *Ctx) {
 						case "cancel-handler":
 							// the master ends the stream if the fault never triggers (no transaction left)
 							a.cancelInHandler, a.terminal = 0, "eof"
+						case "cancel-handler-slow-accept":
+							// the caller shuts down while a handler call is in flight; the call takes a while longer and then
+							// ACCEPTS the transaction: accepted is accepted, the next attempt must not deliver it again
+							a.cancelInHandler, a.afterCancelSleep, a.terminal = r.Intn(2), 250*time.Millisecond, "eof"
 						case "handler-err":
 							a.verdicts, a.terminal = []bool{r.Bool(), false}, "eof"
 						case "cancel-handler-err":
